@@ -364,7 +364,7 @@ func run(c *harness.Ctx, i int) {
 			u, _ := url.Parse("sftp://localhost" + b.dir)
 			s, e := desync.NewSFTPStore(u, opt)
 			if e != nil {
-				c.Inconclusive("sftp shim: %v", e)
+				c.Skip("sftp shim: %v", e)
 				return
 			}
 			err = s.Prune(context.Background(), keep)
